@@ -730,5 +730,23 @@ m('listing-resolves-metadata-inside-the-walk','C20','storage/gcsemu/walk.go',
 		}
 		if count >= maxResults {
 			moreResults = true''','R70/','the memory store walks under the bucket lock and ReadMeta takes it again: the listing deadlocks')
+# ---- C18 / R71: the scan callback passes a row over only because of the row itself
+m('readrows-skips-first-row-after-flush','C18',BT,
+  '''	for _, sr := range srs {
+		addRow := func(r *btpb.Row) bool {
+			if limit > 0 && count >= limit {
+				return false
+			}
+''','''	skipNext := false
+	for _, sr := range srs {
+		addRow := func(r *btpb.Row) bool {
+			if limit > 0 && count >= limit {
+				return false
+			}
+			if skipNext {
+				skipNext = false
+				return true
+			}
+''','R71/','a row is passed over because of a flag, not because of its content')
 json.dump(M, open('/verif/mutants.json','w'), indent=1)
 print(len(M),'mutants')
